@@ -105,9 +105,10 @@ class BlockDownloadServer:
     in sequence, acknowledges a complete sub-block (or the one ended by the last segment) with the number of the last
     segment; after a gap it discards the rest of the sub-block and acknowledges the last segment received in sequence;
     on the end frame it checks the count of unused bytes, the declared size and (when negotiated) the CRC
-    before committing the value."""
+    before committing the value.  With any_loss set the network may lose ANY segment (also the last one, repeatedly)."""
     crc_cls = CrcXmodem
     RESPONSE_TIMEOUT = 0.3
+    any_loss = False
 
     def __init__(self, index, subindex, buf, server_crc):
         self.index = index
@@ -187,6 +188,10 @@ class BlockDownloadServer:
               and (len(self.buf) - 7 * self.seq) + 7 * self.blksize < self.declared):
             if rt.choose_bool("lose-this-segment"):
                 self.losses_left = self.losses_left - 1
+                lost = True
+        elif self.any_loss:
+            # a network that may lose ANY segment (also the last one, also repeatedly)
+            if rt.choose_bool("lose-this-segment"):
                 lost = True
         if lost:
             if last or self.sent >= self.blksize:
